@@ -1287,7 +1287,14 @@ impl ArchetypeSet {
         // ordered, we can identify elements in one but not the other efficiently with parallel
         // iteration.
         let mut src_ty = 0;
+        let mut prev = None;
         for ty in components.type_info() {
+            // `type_info` is sorted, so repeated types are adjacent
+            assert!(
+                prev != Some(ty),
+                "attempted to insert duplicate components; each type must occur at most once!"
+            );
+            prev = Some(ty);
             while src_ty < arch.types().len() && arch.types()[src_ty] <= ty {
                 if arch.types()[src_ty] != ty {
                     retained.push(arch.types()[src_ty]);
